@@ -13,6 +13,10 @@ import (
 func c16(c *an.Ctx) {
 	p := c.P
 
+	c.Check("R-LOCK", "an initially failing subscription is closed: the rerunner is started and stored in c.subscriptions within one critical section of c.mu, so the close fired by the failing first run finds it (rule shared with C17)", 2, func(o *an.O) {
+		ruleRunnerRegisteredBeforeItCanClose(c, o)
+	})
+
 	c.Check("R-DOM", "Executor.Execute: no data with an error; recorded error read after scheduler.Run and before serialising", 4, func(o *an.O) {
 		fn := c.NeedFunc(gq, "(*Executor).Execute")
 		for _, e := range an.Exits(fn, false) {
